@@ -144,8 +144,10 @@ def validate(traces, workdir, module="TraceStackFS", invariants=None, jvms=8, ch
         results = list(ex.map(one, range(len(chunks))))
     for i, r in enumerate(results):
         out = r["out"]
-        if r["rc"] == -9:
+        if r["rc"] == -9 and '"VIOL"' not in out:
             raise C.Inconclusive("TLC trace validation timed out")
+        if r["rc"] == -9:
+            stats["partial"] = True     # so many violations that TLC did not finish printing them: use what it reported
         stats["states"] += r["distinct"]
         stats["generated"] += r["generated"]
         for m in re.finditer(r'<<"VIOL", "(\w+)", "([^"]*)", (\d+)>>', out):
